@@ -1,3 +1,380 @@
 import GnpyModel
-/- Property theorems for C12 (only the property theorems and their non-vacuity examples live here;
-   helper lemmas go to GnpyProofs/Lemmas). -/
+import GnpyProofs.Lemmas.Route
+import GnpyProofs.Lemmas.Disjoint
+import GnpyProofs.Props.C11
+import GnpyProofs.Lemmas.Selection
+import GnpyProofs.Lemmas.SelectionSound
+/- Property theorems for C12 — requests declared disjoint never share a link in either direction.
+   Model: GnpyModel/Route.lean (`LinkDisjoint`, `isdisjointPy`, `shortOf`, `revChain`, `disjointOracle`, steps 2-5 of
+   `compute_path_dsjctn` over abstract candidates). -/
+namespace Gnpy.Route
+
+/-- the checker run on the returned paths decides the disjointness predicate of the property -/
+theorem linkDisjoint_checker (isRoadm : V → Bool) (p q : List V) :
+    linkDisjointB isRoadm p q = true ↔ LinkDisjoint isRoadm p q :=
+  linkDisjointB_iff isRoadm p q
+
+/-- a whole group: the Boolean is `true` exactly when the paths are pairwise link-disjoint -/
+theorem allDisjoint_checker (isRoadm : V → Bool) (ps : List (List V)) :
+    allDisjointB isRoadm ps = true ↔ ps.Pairwise (LinkDisjoint isRoadm) :=
+  allDisjointB_iff isRoadm ps
+
+/-- sharing a link "in either direction" is a symmetric relation (so testing each new path against the paths already
+chosen, as step 2 does, is enough) -/
+theorem linkDisjoint_symm (isRoadm : V → Bool) (p q : List V) (h : LinkDisjoint isRoadm p q) :
+    LinkDisjoint isRoadm q p := by
+  intro l hl
+  constructor
+  · intro hlp; exact (h l hlp).1 hl
+  · intro hlp
+    have := (h (l.2, l.1) hlp).2
+    exact this (by simpa using hl)
+
+/-- **`isdisjoint` is the right test (OMS level).**  For two paths crossing the OMS chains `c1`, `c2`, the sum the code
+computes in step 2, `isdisjoint(short(p1), short(p2)) + isdisjoint(short(reversed p1), short(p2))`, is 0 exactly when
+no OMS of `p1` and no reversed OMS of `p1` is crossed by `p2`. -/
+theorem linkDisjoint_iff (rev : Oms → Oms) (c1 c2 : List Oms) (h1 : Adjacent c1) (h2 : Adjacent c2)
+    (hr : RevOk rev c1) (hs : Separated c1 c2) (hs' : Separated (revChain rev c1) c2) :
+    isdisjointPy (shortOf c1) (shortOf c2) + isdisjointPy (shortOf (revChain rev c1)) (shortOf c2) = 0 ↔
+      ∀ o ∈ c1, o ∉ c2 ∧ rev o ∉ c2 := by
+  have ha := isdisjoint_chain_iff c1 c2 h1 h2 hs
+  have hb := isdisjoint_chain_iff (revChain rev c1) c2 (adjacent_revChain rev c1 h1 hr) h2 hs'
+  rw [Nat.add_eq_zero_iff, ha, hb]
+  constructor
+  · rintro ⟨hx, hy⟩ o ho
+    exact ⟨hx o ho, hy (rev o) ((mem_revChain rev c1 _).2 ⟨o, ho, rfl⟩)⟩
+  · intro h
+    refine ⟨fun o ho => (h o ho).1, ?_⟩
+    intro x hx
+    obtain ⟨o, ho, rfl⟩ := (mem_revChain rev c1 x).1 hx
+    exact (h o ho).2
+
+/-- the ROADM-to-ROADM links of a chain -/
+def linksC (c : List Oms) : List (V × V) := c.map (fun o => (o.src, o.dst))
+
+/-- in a parallel-free network (one OMS per ordered ROADM pair, `rev` the OMS of the opposite pair) "no common OMS and
+no common reversed OMS" is "no common ROADM-to-ROADM link, a link and its opposite identified" -/
+theorem oms_disjoint_iff_links (rev : Oms → Oms) (c1 c2 : List Oms) (hr : RevOk rev c1)
+    (hpar : ∀ o ∈ c1, ∀ o' ∈ c2, (o.src = o'.src → o.dst = o'.dst → o = o') ∧
+                                  (o.dst = o'.src → o.src = o'.dst → rev o = o')) :
+    (∀ o ∈ c1, o ∉ c2 ∧ rev o ∉ c2) ↔ ∀ l ∈ linksC c1, l ∉ linksC c2 ∧ (l.2, l.1) ∉ linksC c2 := by
+  unfold linksC
+  constructor
+  · intro h l hl
+    obtain ⟨o, ho, rfl⟩ := List.mem_map.1 hl
+    constructor
+    · intro hm
+      obtain ⟨o', ho', he⟩ := List.mem_map.1 hm
+      simp only [Prod.mk.injEq] at he
+      have := (hpar o ho o' ho').1 he.1.symm he.2.symm
+      exact (h o ho).1 (this ▸ ho')
+    · intro hm
+      obtain ⟨o', ho', he⟩ := List.mem_map.1 hm
+      simp only [Prod.mk.injEq] at he
+      have := (hpar o ho o' ho').2 he.1.symm he.2.symm
+      exact (h o ho).2 (this ▸ ho')
+  · intro h o ho
+    have hl := h (o.src, o.dst) (List.mem_map.2 ⟨o, ho, rfl⟩)
+    constructor
+    · intro hm; exact hl.1 (List.mem_map.2 ⟨o, hm, rfl⟩)
+    · intro hm
+      refine hl.2 (List.mem_map.2 ⟨rev o, hm, ?_⟩)
+      simp [(hr o ho).1, (hr o ho).2]
+
+/-- the ROADMs met along an adjacent chain pair up into exactly its links: for a path `p` whose ROADMs are
+`sitesOf c`, `linksOf isRoadm p = linksC c` -/
+theorem zip_sites : ∀ c : List Oms, Adjacent c → (sitesOf c).zip (sitesOf c).tail = linksC c
+  | [], _ => by simp [sitesOf, linksC]
+  | [o], _ => by simp [sitesOf, linksC]
+  | o :: o' :: rest, h => by
+    have hadj : o.dst = o'.src := (List.isChain_cons_cons.1 h).1
+    have ih := zip_sites (o' :: rest) (List.isChain_cons_cons.1 h).2
+    simp only [sitesOf, List.map_cons, List.tail_cons, List.zip_cons_cons, linksC] at ih ⊢
+    rw [hadj]
+    simp [ih]
+
+theorem linksOf_of_sites (isRoadm : V → Bool) (p : List V) (c : List Oms) (hc : Adjacent c)
+    (hp : p.filter isRoadm = sitesOf c) : linksOf isRoadm p = linksC c := by
+  unfold linksOf
+  simp only [hp]
+  exact zip_sites c hc
+
+/-- **C12, the implementation's test means the property's relation.**  `p1`, `p2` element paths crossing the adjacent
+OMS chains `c1`, `c2` of a parallel-free network: the step-2 sum is 0 exactly when the paths have no ROADM-to-ROADM link
+in common, a link and its opposite direction counted as the same. -/
+theorem isdisjoint_test_iff_linkDisjoint (isRoadm : V → Bool) (rev : Oms → Oms) (p1 p2 : List V) (c1 c2 : List Oms)
+    (h1 : Adjacent c1) (h2 : Adjacent c2) (hp1 : p1.filter isRoadm = sitesOf c1) (hp2 : p2.filter isRoadm = sitesOf c2)
+    (hr : RevOk rev c1) (hs : Separated c1 c2) (hs' : Separated (revChain rev c1) c2)
+    (hpar : ∀ o ∈ c1, ∀ o' ∈ c2, (o.src = o'.src → o.dst = o'.dst → o = o') ∧
+                                  (o.dst = o'.src → o.src = o'.dst → rev o = o')) :
+    isdisjointPy (shortOf c1) (shortOf c2) + isdisjointPy (shortOf (revChain rev c1)) (shortOf c2) = 0 ↔
+      LinkDisjoint isRoadm p1 p2 := by
+  rw [linkDisjoint_iff rev c1 c2 h1 h2 hr hs hs', oms_disjoint_iff_links rev c1 c2 hr hpar]
+  unfold LinkDisjoint
+  rw [linksOf_of_sites isRoadm p1 c1 h1 hp1, linksOf_of_sites isRoadm p2 c2 h2 hp2]
+
+/-- **the pair oracle means what the property says**: `disjointOracle = true` exactly when there are two routes (of at
+most 80 hops, the documented cut-off), one per request, each honouring its include list unless that list is all-LOOSE,
+with no link in common in either direction -/
+theorem disjointOracle_iff (g : Graph) (hg : g.WF) (isRoadm : V → Bool) (r1 r2 : Req) :
+    disjointOracle g isRoadm r1 r2 = true ↔
+      ∃ p q, IsRoute g r1.s r1.t [] p ∧ p.length ≤ 81 ∧ (r1.strict = true → r1.inc.Sublist p) ∧
+             IsRoute g r2.s r2.t [] q ∧ q.length ≤ 81 ∧ (r2.strict = true → r2.inc.Sublist q) ∧
+             LinkDisjoint isRoadm p q := by
+  have hmem : ∀ s t p, p ∈ candPaths g s t ↔ IsRoute g s t [] p ∧ p.length ≤ 81 := by
+    intro s t p
+    unfold candPaths
+    rw [List.mem_filter, ← validPaths_iff g hg s t [] p]
+    unfold validPaths
+    simp [List.mem_filter]
+  have hacc : ∀ (r : Req) p, acceptable r p = true ↔ (r.strict = true → r.inc.Sublist p) := by
+    intro r p
+    unfold acceptable
+    rw [Bool.or_eq_true, List.isSublist_iff_sublist]
+    cases r.strict <;> simp
+  unfold disjointOracle
+  simp only [List.any_eq_true, Bool.and_eq_true, hmem, hacc, linkDisjointB_iff]
+  constructor
+  · rintro ⟨p, ⟨hp, hpl⟩, hpa, q, ⟨hq, hql⟩, hqa, hd⟩
+    exact ⟨p, q, hp, hpl, hpa, hq, hql, hqa, hd⟩
+  · rintro ⟨p, q, hp, hpl, hpa, hq, hql, hqa, hd⟩
+    exact ⟨p, ⟨hp, hpl⟩, hpa, q, ⟨hq, hql⟩, hqa, hd⟩
+
+/-! ### the candidate selection of `compute_path_dsjctn` (steps 2-5) -/
+
+/-- **step 2 only builds disjoint combinations (pair)**: every combination produced for a vector of two requests is a
+pair of candidates, one per request, that passed the implementation's test -/
+theorem step2_combinations_disjoint (inp : SelInput) (r0 r1 : Nat) (sol : List Cand) (h : sol ∈ step2 inp [r0, r1]) :
+    ∃ i j, sol = [(r0, i), (r1, j)] ∧ i < inp.ncand r0 ∧ j < inp.ncand r1 ∧ inp.dis (r1, j) (r0, i) = true := by
+  obtain ⟨i, hi, j, hj, hs, hd⟩ := (mem_step2_pair inp r0 r1 sol).1 h
+  exact ⟨i, j, hs, hi, hj, hd⟩
+
+theorem step4_nil_iff (inp : SelInput) (combos : List (List Cand)) :
+    step4 inp combos = [] ↔ ∀ sol ∈ combos, sol.all (accCand inp) = false := by
+  unfold step4
+  simp only
+  constructor
+  · intro h sol hsol
+    by_contra hacc
+    have hacc' : sol.all (accCand inp) = true := by simpa using hacc
+    by_cases hok : sol.all (fun c => !(inp.hasInc c.1) || inp.okInc c) = true
+    · have hmem : sol ∈ combos.filter (fun sol => sol.all (fun c => !(inp.hasInc c.1) || inp.okInc c)) :=
+        List.mem_filter.2 ⟨hsol, hok⟩
+      split at h
+      · rw [h] at hmem; simp at hmem
+      next hne =>
+        have hemp : (combos.filter (fun sol => sol.all (fun c => !(inp.hasInc c.1) || inp.okInc c))).isEmpty = true := by
+          simpa using hne
+        have := List.isEmpty_iff.1 hemp
+        rw [this] at hmem; simp at hmem
+    · split at h
+      next hne =>
+        simp only [Bool.not_eq_true'] at hne
+        have : (combos.filter (fun sol => sol.all (fun c => !(inp.hasInc c.1) || inp.okInc c))) ≠ [] := by
+          intro he; rw [he] at hne; simp at hne
+        exact this h
+      next =>
+        have hmem : sol ∈ combos.filter (fun sol =>
+            !(sol.all (fun c => !(inp.hasInc c.1) || inp.okInc c)) &&
+            sol.all (fun c => !(inp.hasInc c.1) || inp.okInc c || !(inp.hasStrict c.1))) := by
+          refine List.mem_filter.2 ⟨hsol, ?_⟩
+          simp only [Bool.and_eq_true, Bool.not_eq_true']
+          refine ⟨by simpa using hok, ?_⟩
+          simpa [accCand] using hacc'
+        rw [h] at hmem; simp at hmem
+  · intro h
+    have hok : combos.filter (fun sol => sol.all (fun c => !(inp.hasInc c.1) || inp.okInc c)) = [] := by
+      apply List.filter_eq_nil_iff.2
+      intro sol hsol hall
+      have := h sol hsol
+      simp only [List.all_eq_false, accCand] at this
+      obtain ⟨c, hc, hcc⟩ := this
+      have := (List.all_eq_true.1 hall) c hc
+      simp_all
+    rw [hok]
+    simp only [List.isEmpty_nil, Bool.not_true, Bool.false_eq_true, if_false]
+    apply List.filter_eq_nil_iff.2
+    intro sol hsol hall
+    have := h sol hsol
+    simp only [Bool.and_eq_true] at hall
+    have h2 : sol.all (accCand inp) = true := hall.2
+    rw [h2] at this
+    exact absurd this (by simp)
+
+theorem step5_single_none_iff (d : Nat) (cs : List (List Cand)) (todo : List Nat) :
+    step5 [d] [(d, cs)] todo = none ↔ cs = [] := by
+  unfold step5
+  cases cs with
+  | nil => simp [step5.go, List.lookup]
+  | cons sol rest =>
+    simp [step5.go, List.lookup]
+
+/-- **C12, pair completeness (selection level).**  For one synchronisation vector of two requests, steps 2-5 end in a
+`DisjunctionError` exactly when no pair of candidates passes the disjointness test with both candidates acceptable
+(include list honoured, or list all-LOOSE).  Together with `isdisjoint_test_iff_linkDisjoint` (the test means
+link-disjointness) and `disjointOracle_iff` this is: for a single pair a disjoint solution is found whenever one
+exists among the candidates of at most 80 hops. -/
+theorem pair_complete (inp : SelInput) (d r0 r1 : Nat) (reqs : List Nat) (hne : r0 ≠ r1)
+    (hf : PairFacts inp r0 r1) :
+    selectDisjoint inp [(d, [r0, r1])] reqs = none ↔
+      ¬ ∃ i, i < inp.ncand r0 ∧ ∃ j, j < inp.ncand r1 ∧ inp.dis (r1, j) (r0, i) = true ∧
+          accCand inp (r0, i) = true ∧ accCand inp (r1, j) = true := by
+  unfold selectDisjoint
+  simp only [List.map_cons, List.map_nil]
+  rw [step3_single inp d [r0, r1] reqs _ (fun r _ hr => noOrphan_pair inp r0 r1 hne hf r hr)]
+  simp only [List.map_cons, List.map_nil]
+  rw [step5_single_none_iff, step4_nil_iff]
+  constructor
+  · rintro h ⟨i, hi, j, hj, hd, ha0, ha1⟩
+    have := h [(r0, i), (r1, j)] ((mem_step2_pair inp r0 r1 _).2 ⟨i, hi, j, hj, rfl, hd⟩)
+    simp [ha0, ha1] at this
+  · intro h sol hsol
+    obtain ⟨i, hi, j, hj, rfl, hd⟩ := (mem_step2_pair inp r0 r1 sol).1 hsol
+    by_contra hcon
+    have hall : [(r0, i), (r1, j)].all (accCand inp) = true := by simpa using hcon
+    simp only [List.all_cons, List.all_nil, Bool.and_true, Bool.and_eq_true] at hall
+    exact h ⟨i, hi, j, hj, hd, hall.1, hall.2⟩
+
+/-- **step 2 only builds disjoint combinations (any vector size)**: every combination holds one candidate per request
+of the vector, in order, and every candidate passed the implementation's test against all candidates before it -/
+theorem step2_combinations_good (inp : SelInput) (dl : List Nat) (sol : List Cand) (h : sol ∈ step2 inp dl) :
+    sol.map Prod.fst = dl ∧ sol.Pairwise (fun a b => inp.dis b a = true) :=
+  step2_good inp dl sol h
+
+/-- **C12, soundness of the selection (steps 2-5), any set of synchronisation vectors** — pairs, larger vectors,
+overlapping vectors.  Whatever combination step 5 returns: every request receives exactly one path, and inside every
+vector any two requests received paths that passed the disjointness test (which, by
+`isdisjoint_test_iff_linkDisjoint`, means: no common link in either direction).  Python's remove-while-iterating in
+step 3, the alternates of step 4 and `remove_candidate` are all part of the model.  Otherwise the result is `none`:
+the computation stops with a DisjunctionError instead of returning overlapping paths. -/
+theorem selection_sound (inp : SelInput) (groups : List (Nat × List Nat)) (reqs : List Nat) (chosen : List Cand)
+    (hids : (groups.map (·.1)).Nodup) (hdl : ∀ g ∈ groups, g.2.Nodup)
+    (hreqs : ∀ g ∈ groups, ∀ r ∈ g.2, r ∈ reqs) (hnd : reqs.Nodup)
+    (h : selectDisjoint inp groups reqs = some chosen) :
+    (∀ c ∈ chosen, ∀ c' ∈ chosen, c.1 = c'.1 → c = c') ∧
+    ∀ g ∈ groups, ∀ r ∈ g.2, ∀ r' ∈ g.2, r ≠ r' →
+      ∃ c ∈ chosen, ∃ c' ∈ chosen, c.1 = r ∧ c'.1 = r' ∧ (inp.dis c c' = true ∨ inp.dis c' c = true) := by
+  unfold selectDisjoint step5 at h
+  simp only at h
+  have hgood2 : GoodTable inp groups (groups.map (fun g => (g.1, step2 inp g.2))) := by
+    intro e he
+    obtain ⟨g, hg, rfl⟩ := List.mem_map.1 he
+    exact ⟨g, hg, rfl, step2_good inp g.2⟩
+  have hgood3 := step3_good inp groups reqs _ hgood2
+  have hgood4 : GoodTable inp groups
+      ((step3 inp groups reqs (groups.map (fun g => (g.1, step2 inp g.2)))).map
+        (fun x => (x.1, step4 inp x.2))) :=
+    goodTable_map inp groups _ _ (fun e => ⟨rfl, step4_subset inp e.2⟩) hgood3
+  have hinv : Inv inp groups reqs
+      ((step3 inp groups reqs (groups.map (fun g => (g.1, step2 inp g.2)))).map
+        (fun x => (x.1, step4 inp x.2))) reqs [] :=
+    ⟨hgood4, by intro c hc; simp at hc, fun r hr => Or.inl hr, by intro c hc; simp at hc,
+     by intro c hc; simp at hc, hnd⟩
+  obtain ⟨_, huniq, hall⟩ := go_sound inp groups reqs hids hdl hreqs _ _ _ _ chosen hinv h
+  refine ⟨huniq, ?_⟩
+  intro g hg r hr r' hr' hne
+  obtain ⟨sol, ⟨hmap, hpw⟩, hin⟩ := hall g.1 (List.mem_map.2 ⟨g, hg, rfl⟩) g hg rfl
+  have hr1 : r ∈ sol.map Prod.fst := hmap ▸ hr
+  have hr2 : r' ∈ sol.map Prod.fst := hmap ▸ hr'
+  obtain ⟨c, hc, hc1⟩ := List.mem_map.1 hr1
+  obtain ⟨c', hc', hc1'⟩ := List.mem_map.1 hr2
+  have hcc : c ≠ c' := by
+    intro e; apply hne; rw [← hc1, ← hc1', e]
+  have hsym : sol.Pairwise (fun a b => inp.dis a b = true ∨ inp.dis b a = true) :=
+    hpw.imp (fun h => Or.inr h)
+  haveI : Std.Symm (fun a b : Cand => inp.dis a b = true ∨ inp.dis b a = true) := ⟨fun _ _ hab => Or.symm hab⟩
+  have := List.Pairwise.forall hsym hc hc' hcc
+  exact ⟨c, hin c hc, c', hin c' hc', hc1, hc1', this⟩
+
+/-- larger or overlapping vectors: completeness is NOT claimed (`…_partial`).  Full statement that is false in general:
+    `selectDisjoint inp groups reqs = none ↔ ¬ ∃ assignment of one acceptable candidate per request, pairwise passing
+    the test inside every vector`.  Counter-example shape: vectors {A,B} and {A,C}; the first combination of {A,B}
+    fixes a path of A for which {A,C} has no combination, while another path of A serves both (step 5 never
+    backtracks).  What holds for any vector structure is the error direction of a single vector: -/
+theorem group_complete_partial (inp : SelInput) (d : Nat) (dl reqs : List Nat)
+    (hno : ∀ r ∈ reqs, r ∈ dl → ∀ c ∈ candsOf inp r, NoOrphan inp.vid c (step2 inp dl))
+    (h : ∀ sol ∈ step2 inp dl, sol.all (accCand inp) = false) :
+    selectDisjoint inp [(d, dl)] reqs = none := by
+  unfold selectDisjoint
+  simp only [List.map_cons, List.map_nil]
+  rw [step3_single inp d dl reqs _ hno]
+  simp only [List.map_cons, List.map_nil]
+  rw [step5_single_none_iff, step4_nil_iff]
+  exact h
+
+/-- candidates of three requests A=0, B=1, C=2 (two each) and the pairs that pass the disjointness test -/
+def okPairs : List (Cand × Cand) :=
+  [((0, 0), (1, 0)), ((0, 1), (1, 1)), ((1, 0), (2, 0)), ((1, 1), (2, 1)), ((0, 0), (2, 1)), ((0, 1), (2, 1)),
+   ((0, 1), (2, 0))]
+
+def demoInc : SelInput where
+  ncand := fun _ => 2
+  dis := fun c c' => okPairs.contains (c, c') || okPairs.contains (c', c)
+  okInc := fun _ => true
+  hasStrict := fun _ => false
+  hasInc := fun _ => false
+  vid := fun c => 2 * c.1 + c.2
+
+/-- **why completeness is only claimed for one pair** (`…_fails_current` for the general statement): with the
+overlapping vectors {A,B}, {B,C}, {A,C} the selection ends in a DisjunctionError although the assignment
+A↦1, B↦1, C↦1 is pairwise disjoint — step 5 commits to the first combination (A↦0, B↦0), then C↦0, and {A,C} has no
+combination left.  (Stated as ONE vector {A,B,C} the same instance is solved.) -/
+theorem overlapping_complete_fails_current :
+    selectDisjoint demoInc [(0, [0, 1]), (1, [1, 2]), (2, [0, 2])] [0, 1, 2] = none ∧
+    (demoInc.dis (1, 1) (0, 1) = true ∧ demoInc.dis (2, 1) (1, 1) = true ∧ demoInc.dis (2, 1) (0, 1) = true) ∧
+    selectDisjoint demoInc [(0, [0, 1, 2])] [0, 1, 2] = some [(0, 1), (1, 1), (2, 1)] := by decide
+
+/-! ### non-vacuity: two ROADM triangles' worth of OMS -/
+
+def oAB : Oms := ⟨0, 10, 1⟩
+def oBA : Oms := ⟨1, 11, 0⟩
+def oBC : Oms := ⟨1, 12, 2⟩
+def oCB : Oms := ⟨2, 13, 1⟩
+def demoRev (o : Oms) : Oms := if o = oAB then oBA else if o = oBA then oAB else if o = oBC then oCB else oBC
+
+example : Adjacent [oAB, oBC] ∧ RevOk demoRev [oAB, oBC] ∧ Separated [oAB, oBC] [oCB, oBA] := by
+  refine ⟨by unfold Adjacent; decide, by unfold RevOk; decide, by unfold Separated; decide⟩
+example : isdisjointPy (shortOf [oAB, oBC]) (shortOf [oCB, oBA]) = 0 := by decide
+example : isdisjointPy (shortOf (revChain demoRev [oAB, oBC])) (shortOf [oCB, oBA]) = 1 := by decide
+/-- selection, non-vacuity: two requests with 2 candidates each, only (0,1)/(1,0) disjoint -/
+def demoSel : SelInput where
+  ncand := fun _ => 2
+  dis := fun c c' => (c == (1, 0) && c' == (0, 1)) || (c == (0, 1) && c' == (1, 0))
+  okInc := fun _ => true
+  hasStrict := fun _ => false
+  hasInc := fun _ => false
+  vid := fun c => 2 * c.1 + c.2
+
+example : selectDisjoint demoSel [(7, [0, 1])] [0, 1] = some [(0, 1), (1, 0)] := by decide
+example : PairFacts demoSel 0 1 := by
+  refine ⟨?_, ?_, ?_, ?_, ?_⟩
+  · intro r i j h; simp only [demoSel] at h; omega
+  · intro i j h; simp only [demoSel] at h ⊢; simp at h; omega
+  · intro i j i' j' h1 h2
+    simp only [demoSel] at h1 h2
+    have hi : i = 2 + j' := by omega
+    have hi' : i' = 2 + j := by omega
+    subst hi; subst hi'
+    have e : ∀ k : Nat, (((0:Nat), 2 + k) == ((0:Nat), (1:Nat))) = false := by
+      intro k; rw [beq_eq_false_iff_ne]; intro h; injection h with h1 h2; omega
+    have e' : ∀ k : Nat, (((1:Nat), k) == ((0:Nat), (1:Nat))) = false := by
+      intro k; rw [beq_eq_false_iff_ne]; intro h; injection h with h1 h2; omega
+    simp only [demoSel, e, e', Bool.and_false, Bool.false_and, Bool.or_false]
+  · intro i j hi hj h; simp only [demoSel] at h hi hj; omega
+  · intro i j hi hj h; simp only [demoSel] at h hi hj; omega
+example : selectDisjoint { demoSel with dis := fun _ _ => false } [(7, [0, 1])] [0, 1] = none := by decide
+/-- overlapping vectors {0,1} and {0,2}: three requests with two candidates each, candidates with different index are
+disjoint; a triple {0,1,2} is impossible -/
+def demoSel3 : SelInput where
+  ncand := fun _ => 2
+  dis := fun c c' => c.2 != c'.2
+  okInc := fun _ => true
+  hasStrict := fun _ => false
+  hasInc := fun _ => false
+  vid := fun c => 2 * c.1 + c.2
+
+example : selectDisjoint demoSel3 [(0, [0, 1]), (1, [0, 2])] [0, 1, 2] = some [(0, 1), (1, 0), (2, 0)] := by decide
+example : selectDisjoint demoSel3 [(0, [0, 1, 2])] [0, 1, 2] = none := by decide
+example : sitesOf [oAB, oBC] = [0, 1, 2] ∧ linksC [oAB, oBC] = [(0, 1), (1, 2)] := by decide
+
+end Gnpy.Route
